@@ -80,6 +80,7 @@ class Mon:
         self.begin = []         # admission snapshots
         self.entry = {}         # task id -> do_work entry instant
         self.exit = {}
+        self.overcommitted = False
 
     def tag(self, t):
         if t not in self.tags:
@@ -154,8 +155,10 @@ def _begin(self, observation):
             mon.tag('C08/not-enough-available-machines')
         if len(cl._resources['ingest']) + promised + dem > self.max_ingest:
             mon.tag('C08/ingest-limit-exceeded-at-start')
-        if size > hot.current_capacity - promised_room - pending_in:
+        if size > hot.current_capacity - promised_room:
             mon.tag('C08/no-room-in-hot-buffer')
+        elif size > hot.current_capacity - promised_room - pending_in:
+            mon.overcommitted = True          # room exists now but is spoken for by data still being ingested (C07's matter)
         if size > cold.current_capacity:
             mon.tag('C08/no-room-in-cold-buffer')
         mon.begin.append(dict(t=now, obs=observation, dem=dem, size=size, est=observation.est))
@@ -391,7 +394,15 @@ def blocked_signature(sim):
     tel, bf, sch, cl = sim.instrument, sim.buffer, sim.scheduler, sim.cluster
     hot, cold = bf.hot[0], bf.cold[0]
     if cold.observations['stored']:
-        return 'obs-stranded-in-cold'
+        # why does it not come back?  (the two by-design reasons are listed as known findings; anything else is new)
+        o = cold.observations['stored'][-1]
+        gate_open = (hot.current_capacity + bf._data_left_to_transfer) * 5 < hot.total_capacity * 3
+        fits = (hot.total_capacity - hot.current_capacity + o.total_data_size) * 5 < hot.total_capacity * 3
+        if not gate_open:
+            return 'obs-stranded-in-cold/return-gate-closed-while-hot-buffer-mostly-free'
+        if not fits:
+            return 'obs-stranded-in-cold/does-not-fit-under-tiering-threshold'
+        return 'obs-stranded-in-cold/other'
     if any(o.status == RunStatus.WAITING for o in tel.observations):
         return 'observation-never-admitted'
     if sch.observation_queue:
@@ -401,6 +412,22 @@ def blocked_signature(sim):
     if not cl.is_idle():
         return 'cluster-never-idle'
     return 'other'
+
+
+def feasible(sc):
+    """C05's pre-condition: each observation alone fits the telescope, the ingest limit, the cluster and both buffers;
+    Batch: floor(machines / partitions) >= minimum reservation"""
+    nm = len(sc['machines'])
+    for o in sc['obs']:
+        size = o['rate'] * o['dur']
+        if o.get('arrays', 1) > sc.get('arrays', 4) or o.get('ingest', 1) > sc['max_ingest'] or o.get('ingest', 1) > nm:
+            return False
+        if size >= sc['hot'] or size > sc['cold'] or o['rate'] > sc['hot_rate'] or o['dur'] < 1:
+            return False
+    a = sc['alg']
+    if a['kind'] == 'batch' and nm // a.get('parts', 1) < a.get('min', 1):
+        return False
+    return True
 
 
 class Result:
@@ -470,12 +497,15 @@ def start_with_cap(sim, mon, cap):
             env.run(env.now + 1)
     except Exception as ex:           # CrossHair's control-flow exceptions are BaseException: not caught here
         site = ''
-        tb = ex.__traceback__
-        while tb is not None:
-            fn = tb.tb_frame.f_code.co_filename
-            if '/topsim/' in fn:
-                site = os.path.basename(fn)[:-3] + '.' + tb.tb_frame.f_code.co_name
-            tb = tb.tb_next
+        e = ex
+        while e is not None and not site:         # SimPy re-raises a process failure with the original as __cause__
+            tb = e.__traceback__
+            while tb is not None:
+                fn = tb.tb_frame.f_code.co_filename
+                if '/topsim/' in fn:
+                    site = os.path.basename(fn)[:-3] + '.' + tb.tb_frame.f_code.co_name
+                tb = tb.tb_next
+            e = e.__cause__ or e.__context__
         mon.tag(f'C05/raises/{type(ex).__name__}@{site}')
         return 'raised'
     return 'finished'
@@ -669,3 +699,14 @@ def run_public(sc, segments):
     for u in segments[1:]:
         sim.resume(until=u)
     return sim
+
+
+# ------------------------------------------------------------------------------------------------ raw-scenario replay
+PIN = {}
+
+
+def scenario_tag(sc, props):
+    """replay entry for a stored scenario (known-finding witnesses, seeded-change demonstrations)"""
+    if not feasible(sc):
+        return 'HARNESS/infeasible-scenario'
+    return first_tag(run(sc), props)
